@@ -1,4 +1,5 @@
 import PGT.Proofs.OrderIndepEmbed
+import PGT.Proofs.OrderIndepSiblings
 import PGT.Model.Schema
 /-
 C15 – Declaration order never changes behaviour; sort makes output order-free (IR-level part).
@@ -89,7 +90,7 @@ theorem C15_sort_is_perm (l : List Field) : (sortFieldsByName l).Perm l := by
 -- by different blocks are distinct or – branches of one oneof group – at most one branch attribute is known (`Indep` / `IndepFull`;
 -- necessary: `C15_oneof_order_matters`). Which failure is reported can depend on the order (`C15_failure_differs`).
 section
-open PGT.OrderIndep
+open PGT.OrderIndep PGT.Spec
 
 /-- **C15, CopyTo field blocks (part 1)**: if `fs'` is a permutation of `fs` and the attribute names of `fs` are pairwise
 distinct then, for every struct, every `AttrTypes` and every start state (all inputs, no typing hypotheses),
@@ -169,6 +170,42 @@ theorem C15_copyFrom_perm_full (ov : List (String × String)) (m' m : Msg) (hp :
       (∀ name, r'.obj.field? name = r.obj.field? name) ∧ IsStruct r'.obj ∧ IsStruct r.obj ∧
       r'.diags.Perm r.diags ∧ r'.hooks.Perm r.hooks := by
   intros; apply PGT.OrderIndep.copyFrom_perm_full <;> assumption
+
+end
+
+-- children of one nullable embedded message commute up to the normal form (proofs: `Proofs/OrderIndepSiblings.lean`): literally
+-- the results can differ – a null list child processed before the parent is allocated stays nil, after it becomes an empty slice
+-- (`C15_siblings_literal_differs`) –, in the normal form of C04 ("absent ≡ reset value" below the embedded pointer) they agree.
+section
+open PGT.OrderIndep PGT.Spec
+/-- **C15, `Copy<T>FromTerraform`, siblings included (part 3)**: two messages with the same `MsgInfo` whose field lists
+are permutations of each other; blocks pairwise on disjoint key sets or siblings; target a struct. -/
+theorem C15_copyFrom_perm_siblings (ov : List (String × String)) (m' m : Msg) (hp : m'.fields.Perm m.fields)
+    (hinfo : m'.info = m.info) (tf : TfVal) (obj : GoVal) (hobj : IsStruct obj)
+    (hind : ∀ u n attrs atys, tf = .obj u n attrs atys → m.fields.Pairwise (Compat attrs)) :
+    ((∃ r', copyFrom ov m' tf obj = .ok r') ↔ (∃ r, copyFrom ov m tf obj = .ok r)) ∧
+    ∀ r' r, copyFrom ov m' tf obj = .ok r' → copyFrom ov m tf obj = .ok r →
+      ObjNfRel m.fields r'.obj r.obj ∧ r'.diags.Perm r.diags ∧ r'.hooks.Perm r.hooks ∧
+      (NamesOK m.fields → nfEqFields m.fields r.obj r.obj = true →
+        nfEqFields m.fields r'.obj r.obj = true ∧ nfEqFields m.fields r.obj r'.obj = true) := by
+  intros; apply PGT.OrderIndep.copyFrom_perm_siblings <;> assumption
+
+/-- (1), for the two fields alone, from the same struct target -/
+theorem C15_siblings_commute (ov : List (String × String)) (attrs : Option (List (String × TfVal)))
+    (f g : Field) (hsib : Sibling attrs f g) (st : FromSt) (hst : IsStruct st.obj) :
+    ((∃ t, obind (blockF ov f attrs st) (blockF ov g attrs) = .ok t) ↔
+      (∃ t, obind (blockF ov g attrs st) (blockF ov f attrs) = .ok t)) ∧
+    ∀ t t', obind (blockF ov f attrs st) (blockF ov g attrs) = .ok t →
+      obind (blockF ov g attrs st) (blockF ov f attrs) = .ok t' →
+      ObjNfRel [f, g] t.obj t'.obj ∧ t.diags.Perm t'.diags ∧ t.hooks.Perm t'.hooks := by
+  intros; apply PGT.OrderIndep.blockF_siblings_commute <;> assumption
+
+/-- **(3) literal equality fails**: `A` (known) and `L` (null) are children of the nil embedded message `E`.  In the
+declaration order `A, L` the block of `A` allocates `E` and the block of `L` then resets `E.L` to an EMPTY slice; in the
+order `L, A` the block of `L` finds `E` nil and does nothing, so `E.L` stays NIL (absent).  The two results differ
+literally and are equal in the normal form of the property (`Spec.nfEqFields`). -/
+theorem C15_siblings_literal_differs : type_of% PGT.OrderIndep.siblings_literal_differs :=
+  PGT.OrderIndep.siblings_literal_differs
 
 end
 
